@@ -137,13 +137,13 @@ class Pool:
             idx.append(i)
         normal = [(a, b) for a, b in terms if b is not None]
         nidx = [i for (a, b), i in zip(terms, idx) if b is not None]
-        bad = C.coq_eval_mismatches("tirK_" + self.ctx.prop, HEADER, normal, "zl_eqb", "(tir_case E0)", "callback * list Z", shard_size=40, scope="Z_scope")
+        bad = C.coq_eval_mismatches("tirK_" + self.ctx.prop, HEADER, normal, "zl_eqb", "(tir_case E0)", "callback * list Z", shard_size=250, scope="Z_scope")
         self.bad = [nidx[j] for j in bad]
         pan = [(a, "2%Z") for a, b in terms if b is None]
         pidx = [i for (a, b), i in zip(terms, idx) if b is None]
         self.model_predicts_panic = set()
         if pan:
-            badp = C.coq_eval_mismatches("tirP_" + self.ctx.prop, HEADER, pan, "Z.eqb", "(fun c => hd 9 (tir_case E0 c))", "callback * Z", shard_size=40, scope="Z_scope")
+            badp = C.coq_eval_mismatches("tirP_" + self.ctx.prop, HEADER, pan, "Z.eqb", "(fun c => hd 9 (tir_case E0 c))", "callback * Z", shard_size=250, scope="Z_scope")
             self.model_predicts_panic = {pidx[j] for j in range(len(pan)) if j not in badp}
             self.bad += [pidx[j] for j in badp]
         return self.bad
